@@ -1,5 +1,5 @@
 (** Dispatch table of property C02 (Roland S-7xx): ids 850-899. *)
-From SE Require Import Base Fat Stream Roland DriverBase.
+From SE Require Import Base Fat Stream Roland RolandImage DriverBase.
 
 Definition unpoints (v : val) : rpoints :=
   match unVLZ v with
@@ -18,6 +18,18 @@ Definition undisk (a : val) : rdisk :=
   {| d_num_perf := unVI (nth_arg a 0); d_volumes := map unVLZ (unVL (nth_arg a 1));
      d_perf_dir := unVLZ (nth_arg a 2); d_perf := untable (nth_arg a 3);
      d_patch := untable (nth_arg a 4); d_partial := untable (nth_arg a 5) |}.
+
+(** a (large, mostly zero) image travels as (len (off (bytes...)) (off (bytes...)) ...) with
+    increasing, non-overlapping runs (harness/model.py enc_image); it is NOT expanded: the
+    whole-image model reads it through [sparse_image_rd] *)
+Definition unruns (v : val) : Z * list (Z * Z * list Z) :=
+  match unVL v with
+  | VI len :: runs =>
+      (len, map (fun r => let bs := unVLZ (nth 1 (unVL r) (VI 0)) in
+                          (unVI (nth 0 (unVL r) (VI 0)), zlen bs, bs)) runs)
+  | _ => (0, [])
+  end.
+Definition vstr := vlistZ.
 
 Definition dispatch_c02 (id : Z) (a : val) : option val :=
   match id with
@@ -45,5 +57,27 @@ Definition dispatch_c02 (id : Z) (a : val) : option val :=
   | 856 (* roland_frequency *) => Some (vres VI (frequency_of_code (unVI a)))
   | 857 (* roland_point *) => Some (VL [VI (point_fine (unVI a)); VI (point_address (unVI a))])
   | 858 (* roland_cluster_offset *) => Some (VI (cluster_offset (unVI a)))
+  | 859 (* roland_export *) =>
+      let '(len, runs) := unruns a in
+      if negb (runs_okb runs 0 len) then Some vbad else
+      Some (vres (fun l => VL (map vwav l)) (roland_export_gen len (sparse_image_rd len runs)))
+  | 860 (* roland_ls *) =>
+      let '(len, runs) := unruns a in
+      if negb (runs_okb runs 0 len) then Some vbad else
+      Some (vres (fun l => VL (map (fun v => VL [VI (fst (fst v)); vstr (snd (fst v));
+                   VL (map (fun p => VL [vstr (fst (fst p)); VL (map vstr (snd (fst p))); VL (map vstr (snd p))]) (snd v))]) l))
+                 (roland_ls_gen len (sparse_image_rd len runs)))
+  | 861 (* sparse_read *) =>
+      (* image, list of (off n) *)
+      let '(len, runs) := unruns (nth_arg a 0) in
+      Some (VL (map (fun q => vlistZ (sparse_image_rd len runs (unVI (nth_arg q 0)) (unVI (nth_arg q 1))))
+                    (unVL (nth_arg a 1))))
+  | 862 (* raw_fat_check *) => Some (vres VI (raw_fat_check (unVLZ a)))
+  | 863 (* raw_get_file *) =>
+      Some (vres vlistZ (raw_get_file (unVLZ (nth_arg a 0)) (unVI (nth_arg a 1)) (unVI (nth_arg a 2))))
+  | 865 (* raw_get_files *) =>
+      let fat := unVLZ (nth_arg a 0) in
+      Some (VL (map (fun q => vres vlistZ (raw_get_file fat (unVI (nth_arg q 0)) (unVI (nth_arg q 1))))
+                    (unVL (nth_arg a 1))))
   | _ => None
   end.
